@@ -6,12 +6,13 @@ The property text speaks about what the back end *holds*: "its body is executed 
 value for its key … and again after invalidate…", "produces the output an uncached render would have produced
 when its cache entry was created", "entries of one template are never served to another".  `Spec` is that
 notion, written without looking at the model's state: it is *replayed from the trace* – from the calls the back
-end sees (`set`, `invalidate`), from the completed creations, and from the assignments to `cache_enabled`.
-Every entry remembers which template put it there and how.
+end sees (`set`, `invalidate`), from the completed creations, from the assignments to `cache_enabled` and from the
+(re)compilations of templates; it keeps its own clock.  Every entry remembers which template put it there, how and when.
 
-`evRuns`, `evReplay`, `evOwn` are the three checks the monitor applies to the decision a cached wrapper took
-(`enter … hit/miss`, `bypass`) against the replayed specification state *before* that event.  The theorems of
-`Props/C17.lean` say that the monitor accepts the trace of every history.
+`evRuns`, `evReplay`, `evCreation`, `evFresh`, `evOwn` are the five checks the monitor applies to the decision a cached
+wrapper took (`enter … hit/miss`, `bypass`) against the replayed specification state *before* that event.  The theorems of
+`Props/C17.lean` say that the monitor accepts the trace of every history for the first four, and for `evOwn` when the
+module ids are distinct.
 -/
 namespace MakoModel.Cache
 variable {R : Type} [DecidableEq R]
